@@ -101,18 +101,29 @@ def getCsrDataIndex (g : Csr) (row col : Nat) : Option Nat :=
 inductive Outcome | ok | runtimeError | indexError
   deriving Repr, DecidableEq
 
+/-- the three link classes with their own `status` property / registry generator (`wn.pipes()`, `wn.pumps()`, `wn.valves()`);
+a check-valve pipe is a `pipe` (its valve closes `_internal_status`), PRV/PSV/PBV/FCV/TCV/GPV are all `valve` -/
+inductive LinkKind | pipe | pump | valve
+  deriving Repr, DecidableEq
+
 structure Net where
   n : Nat                      -- number of nodes; node ids = position in `wn.nodes()`
   links : List (Nat × Nat)     -- (start id, end id) in `wn.links()` order; link id = position
-  valve : List Bool            -- per link: is it a Valve (its `status` property differs)
+  kind : List LinkKind         -- per link: its class
   initOrder : List Nat         -- link ids in the order pipes ++ pumps ++ valves
   sources : List Nat           -- tank ids then reservoir ids
   deriving Repr
 
-/-- the `status` property of Pipe/Pump (`_internal_status == Closed → Closed, else _user_status`) and of Valve -/
-def statusOf (isValve : Bool) (user internal : Nat) : Nat :=
-  if isValve then (if user = 0 then 0 else if user = 1 then 1 else internal)
-  else (if internal = 0 then 0 else user)
+/-- the `status` property as the code computes it from (class, `_user_status`, `_internal_status`):
+`Pipe.status` / `Pump.status`: `_internal_status == Closed → Closed, else _user_status` (a check valve or a pump shut-off closes
+the link whatever the user status; a user-Closed link is Closed);
+`Valve.status`: `_user_status == Closed → Closed, == Open → Open, else _internal_status` (an Active valve reports what the
+internal valve logic decided: Active, Open or Closed). -/
+def statusOf (k : LinkKind) (user internal : Nat) : Nat :=
+  match k with
+  | .valve => if user = 0 then 0 else if user = 1 then 1 else internal
+  | .pipe => if internal = 0 then 0 else user
+  | .pump => if internal = 0 then 0 else user
 
 structure Sim where
   net : Net
@@ -130,7 +141,7 @@ structure Sim where
   deriving Repr
 
 def Sim.status (s : Sim) (k : Nat) : Nat :=
-  statusOf (s.net.valve.getD k false) (s.user.getD k 1) (s.internal.getD k 2)
+  statusOf (s.net.kind.getD k .pipe) (s.user.getD k 1) (s.internal.getD k 2)
 
 def Net.linkEnds (net : Net) (k : Nat) : Nat × Nat := net.links.getD k (0, 0)
 
@@ -158,6 +169,7 @@ def countLinks (net : Net) : List ((Nat × Nat) × Nat) :=
     let d := dictSet d (a, b) (dictGet d (a, b) + 1)
     dictSet d (b, a) (dictGet d (b, a) + 1)) []
 
+/-- the CSR value of a status: only `LinkStatus.Closed` (0) counts as closed for connectivity; Open, Active and CV count as open -/
 def openVal (st : Nat) : Int := if st = 0 then 0 else 1
 
 /-- write `v` at both data positions of link `k` -/
@@ -188,7 +200,7 @@ def initStep (g0 : Csr) (ndx : List (Nat × Nat)) (status : Nat → Nat) (d : Li
 
 /-- `_initialize_internal_graph` (the repaired code: `shape=(num_nodes, num_nodes)`) -/
 def initGraph (net : Net) (user internal : List Nat) : Outcome × Sim :=
-  let st : Nat → Nat := fun k => statusOf (net.valve.getD k false) (user.getD k 1) (internal.getD k 2)
+  let st : Nat → Nat := fun k => statusOf (net.kind.getD k .pipe) (user.getD k 1) (internal.getD k 2)
   let entries := net.initOrder.flatMap fun k => let (a, b) := net.linkEnds k; [(a, b), (b, a)]
   let g0 := buildCsr net.n entries
   let ndxO := net.links.map fun (a, b) => (getCsrDataIndex g0 a b, getCsrDataIndex g0 b a)
@@ -250,11 +262,25 @@ def getIsolated (s : Sim) : Sim :=
 /-- what `run_sim` does before every solve: `_update_internal_graph(); _get_isolated_junctions_and_links()` -/
 def prepareSolve (s : Sim) : Sim := getIsolated (updateGraph s)
 
+/-- node ids of `wn.junctions()` (everything that is not a tank / reservoir), ascending -/
+def Net.junctions (net : Net) : List Nat := (List.range net.n).filter fun v => !net.sources.contains v
+
+/-- the head of `run_sim` on a (possibly NEW) simulator object working on a network that may still carry `_is_isolated` flags of
+an earlier run: `_prev_isolated_junctions = OrderedSet(name for name, junction in wn.junctions() if junction._is_isolated)`,
+`_prev_isolated_links = OrderedSet(name for name, link in wn.links() if link._is_isolated)` (ALL links: pipes, pumps, valves),
+then `_initialize_internal_graph()` from the current statuses and fresh tracker reference points. The flags themselves stay. -/
+def startRun (s : Sim) : Outcome × Sim :=
+  let r := initGraph s.net s.user s.internal
+  (r.1, { r.2 with isoJ := s.isoJ, isoL := s.isoL,
+                   prevIsoJ := s.net.junctions.filter fun v => s.isoJ.getD v false,
+                   prevIsoL := (List.range s.net.links.length).filter fun l => s.isoL.getD l false })
+
 inductive Op
   | act (toUser : Bool) (k v : Nat)
   | update
   | isolated
   | prepare
+  | restart
   deriving Repr
 
 def step (s : Sim) : Op → Sim
@@ -262,6 +288,7 @@ def step (s : Sim) : Op → Sim
   | .update => updateGraph s
   | .isolated => getIsolated s
   | .prepare => prepareSolve s
+  | .restart => (startRun s).2
 
 def run (s : Sim) (ops : List Op) : Sim := ops.foldl step s
 
